@@ -402,7 +402,7 @@ func keys(m map[string]bool) []string {
 var boundaryK = []int{15, 16, 45, 46, 47, 63, 64, 65, 108, 109, 110, 111} //nolint:gochecknoglobals
 
 // genEnc: a history of 1..5 EncodeFec calls through one encoder.
-func genEnc(r *rand.Rand, boundary bool) (encCase, []string) {
+func genEnc(r *rand.Rand, boundary, big bool) (encCase, []string) {
 	b := map[string]bool{}
 	c := encCase{PT: uint8(r.Intn(128)), SSRC: r.Uint32()}
 	if r.Intn(10) == 0 {
@@ -410,8 +410,11 @@ func genEnc(r *rand.Rand, boundary bool) (encCase, []string) {
 		b["fec-pt>=128"] = true
 	}
 	mssrc := r.Uint32()
-	nb := 3 + r.Intn(3)
-	s := shape{maxPayload: 60, big: r.Intn(6) == 0}
+	nb := 3 + r.Intn(2)
+	s := shape{maxPayload: 48, big: big}
+	if big {
+		nb = 2
+	}
 	if boundary {
 		nb = 1 + r.Intn(2)
 		s = shape{maxPayload: 12}
@@ -422,7 +425,7 @@ func genEnc(r *rand.Rand, boundary bool) (encCase, []string) {
 		k = 1 + r.Intn(30)
 	}
 	if s.big {
-		k = 1 + r.Intn(5)
+		k = 1 + r.Intn(4)
 		b["payload-1200/1500"] = true
 	}
 	if boundary {
@@ -435,7 +438,9 @@ func genEnc(r *rand.Rand, boundary bool) (encCase, []string) {
 		case x < 4 && i > 0: // same shape again: coverage reuse
 			b["same-shape-again"] = true
 		case x < 7 && i > 0:
-			if !boundary {
+			if big {
+				k = 1 + r.Intn(4)
+			} else if !boundary {
 				k = 1 + r.Intn(14)
 			} else {
 				k = boundaryK[r.Intn(len(boundaryK))]
@@ -482,7 +487,7 @@ func genEnc(r *rand.Rand, boundary bool) (encCase, []string) {
 func genIcpt(r *rand.Rand, boundary bool) (icptCase, []string) {
 	b := map[string]bool{}
 	c := icptCase{PT: uint8(1 + r.Intn(127)), FecSSRC: 1 + r.Uint32()>>1, MediaSSRC: r.Uint32()}
-	s := shape{maxPayload: 40, big: r.Intn(10) == 0}
+	s := shape{maxPayload: 32, big: r.Intn(25) == 0}
 	nms := []int{1, 2, 3, 5, 5, 8, 10, 16}
 	nm := nms[r.Intn(len(nms))]
 	batches := 2 + r.Intn(3)
@@ -526,17 +531,20 @@ func genIcpt(r *rand.Rand, boundary bool) (icptCase, []string) {
 func main() {
 	o := cq.ParseFlags()
 	r := o.Rand()
-	enc := &cq.Set{
-		Name: "c14enc", Import: "IV.Check.C14Check", CaseType: "enc_case",
-		Checks: []string{"enc_mismatches", "enc_spec_failures"},
+	mk := func(name, typ, pre string) *cq.Set {
+		return &cq.Set{
+			Name: name, Import: "IV.Check.C14Check", CaseType: typ,
+			Checks: []string{pre + "_mismatches", pre + "_spec_failures"},
+		}
 	}
-	icpt := &cq.Set{
-		Name: "c14icpt", Import: "IV.Check.C14Check", CaseType: "icpt_case",
-		Checks: []string{"icpt_mismatches", "icpt_spec_failures"},
-	}
+	// several sets only to keep the generated .v files small (parsing byte literals dominates the check)
+	enc, enc2, encBig, encBnd := mk("c14enc", "enc_case", "enc"), mk("c14enc2", "enc_case", "enc"),
+		mk("c14big", "enc_case", "enc"), mk("c14bnd", "enc_case", "enc")
+	icpt, icptBnd := mk("c14icpt", "icpt_case", "icpt"), mk("c14icptbnd", "icpt_case", "icpt")
+	all := []*cq.Set{enc, enc2, encBig, encBnd, icpt, icptBnd}
 	load := func(file, bucket string) {
 		var probe map[string]interface{}
-		if cq.LoadReplay(file, &probe) == "c14icpt" {
+		if set := cq.LoadReplay(file, &probe); set == "c14icpt" || set == "c14icptbnd" {
 			var c icptCase
 			cq.LoadReplay(file, &c)
 			icpt.Cases = append(icpt.Cases, runIcpt(c).toCase(bucket))
@@ -548,38 +556,47 @@ func main() {
 	}
 	if o.Replay != "" {
 		load(o.Replay, "replay")
-		cq.Write(o, "replay", []*cq.Set{enc, icpt}, nil, nil)
+		cq.Write(o, "replay", all, nil, nil)
 
 		return
 	}
 	for _, f := range o.CorpusFiles() {
 		load(f, "corpus")
 	}
-	ne := o.Scale(700, 20000)
+	ne := o.Scale(480, 20000)
 	for i := 0; i < ne; i++ {
-		c, b := genEnc(r, false)
-		enc.Cases = append(enc.Cases, runEnc(c).toCase(b...))
+		c, b := genEnc(r, false, false)
+		if i%2 == 0 {
+			enc.Cases = append(enc.Cases, runEnc(c).toCase(b...))
+		} else {
+			enc2.Cases = append(enc2.Cases, runEnc(c).toCase(b...))
+		}
 	}
-	nb := o.Scale(48, 1500)
+	ng := o.Scale(40, 1500)
+	for i := 0; i < ng; i++ {
+		c, b := genEnc(r, false, true)
+		encBig.Cases = append(encBig.Cases, runEnc(c).toCase(b...))
+	}
+	nb := o.Scale(44, 1500)
 	for i := 0; i < nb; i++ {
-		c, b := genEnc(r, true)
-		enc.Cases = append(enc.Cases, runEnc(c).toCase(b...))
+		c, b := genEnc(r, true, false)
+		encBnd.Cases = append(encBnd.Cases, runEnc(c).toCase(b...))
 	}
-	ni := o.Scale(250, 6000)
+	ni := o.Scale(200, 6000)
 	for i := 0; i < ni; i++ {
 		c, b := genIcpt(r, false)
 		icpt.Cases = append(icpt.Cases, runIcpt(c).toCase(b...))
 	}
-	nib := o.Scale(12, 300)
+	nib := o.Scale(10, 300)
 	for i := 0; i < nib; i++ {
 		c, b := genIcpt(r, true)
-		icpt.Cases = append(icpt.Cases, runIcpt(c).toCase(b...))
+		icptBnd.Cases = append(icptBnd.Cases, runIcpt(c).toCase(b...))
 	}
 	cq.Write(o, "enc: histories of 1..5 EncodeFec calls through one encoder (batches of 1..30 packets, boundary batches of "+
 		"15/16/45/46/47/63/64/65/108/109/110/111; n in {0,1,k-1,k,k+1,110,>110,1..6}; CSRC, one-/two-byte extensions, padding 1..255, "+
-		"marker, any PT, version != 2; payload 0..60 with 1200/1500; base SN incl. wrap inside the batch; same shape again / shape change; "+
+		"marker, any PT, version != 2; payload 0..48, separate histories with 1200/1500; base SN incl. wrap inside the batch; same shape again / shape change; "+
 		"gaps, swaps, empty batches); non-trivial = at least one repair packet emitted; "+
 		"icpt: real FecInterceptor bound to one stream, 1..4 batches of numMedia in {0,1,2,3,5,8,10,16,46,47,109,110} plus packets of "+
 		"other SSRCs and sequence gaps; non-trivial = at least one repair packet reached the writer",
-		[]*cq.Set{enc, icpt}, nil, nil)
+		all, nil, nil)
 }
